@@ -925,6 +925,6 @@ theorem run_clean {proj : Project} {rank : List Nat} (hwf : WF proj rank = true)
   have wf := WF.facts hwf
   have nr := WF.noReexp hwf
   obtain ⟨hb0, hI0, _⟩ := initSt_ok wf
-  exact process_clean wf nr order _ hI0 hb0
+  exact process_clean wf nr order _ (hI0.setPending order) hb0
 
 end Imports
